@@ -38,6 +38,7 @@ var suites = map[string]suiteFn{
 	"pure-routing":     pure.Routing,
 	"pure-shards":      pure.Shards,
 	"pure-launch":      pure.Launch,
+	"pure-connector":   pure.ConnectorRoundTrip,
 	"pure-ctl":         pure.Controller,
 	"pure-graph":       pure.GraphSuite,
 }
